@@ -1,9 +1,9 @@
 //! Builder clause of C16: the Builder ends a block for exactly the opcodes the specification
 //! classifies as block-termination instructions.
 
-use crate::bmodel::{method, method_sems, ArgCtx, MClass, RandArgs};
+use crate::bmodel::{method, method_sems, ArgCtx, MClass, RandArgs, ReplayArgs};
 use crate::spec;
-use crate::util::{catch, run_stage, Cfg, Report};
+use crate::util::{catch, run_stage, Cfg, Report, Rng};
 use rspirv::dr::Builder;
 use rspirv::spirv::FunctionControl;
 
@@ -56,4 +56,156 @@ pub fn run(cfg: &Cfg, rep: &mut Report) {
         }
         r.nontrivial(format!("builder:{}", sem.name));
     });
+    // the same question in other Builder states than a fresh open block: non-empty blocks with any insertion
+    // point, the same instruction already present, re-selected finished blocks, later blocks still open,
+    // several functions
+    let reps = cfg.n(2, 400);
+    run_stage(cfg, rep, "builder-terminator-states", block_level.len() as u64 * N_STATES * reps, |i, rng, r| {
+        let mi_idx = (i % block_level.len() as u64) as usize;
+        let state = (i / block_level.len() as u64) % N_STATES;
+        let sem = &sems[bl[mi_idx]];
+        let call = match method(sem.idx).call {
+            Some(c) => c,
+            None => return,
+        };
+        let opname = match &sem.opname {
+            Some(o) => o.clone(),
+            None => return,
+        };
+        let rp = || crate::util::replay_ref(cfg, "builder-terminator-states", i).set("method", sem.name).set("state", state);
+        let want = spec::is_block_terminator(&opname);
+        let (mut b, what) = prepare(rng, state);
+        let mut marker = 1000;
+        let mut block_len = |b: &Builder| -> usize {
+            let m = b.module_ref();
+            match (b.selected_function(), b.selected_block()) {
+                (Some(f), Some(k)) => m.functions[f].blocks[k].instructions.len(),
+                _ => 0,
+            }
+        };
+        // states 2 and 3: the method itself has been called before (identical / different arguments)
+        let mut earlier: Option<Vec<crate::bmodel::Arg>> = None;
+        if state == 2 || state == 3 {
+            let sel = (b.selected_function(), b.selected_block());
+            let ctx = ArgCtx { block_len: block_len(&b), ..Default::default() };
+            let mut args = RandArgs::new(rng, &mut marker, &ctx, sem.name);
+            match catch(|| call(&mut b, &mut args)) {
+                Ok(o) if !o.is_err() => {}
+                _ => return, // judged by the stage above
+            }
+            earlier = Some(args.trace.clone());
+            if b.selected_block().is_none() {
+                if b.select_block(sel.1).is_err() {
+                    return;
+                }
+            }
+        }
+        let before = b.selected_block();
+        if before.is_none() {
+            r.inconclusive.push(format!("state {} ({}) leaves no block selected", state, what));
+            return;
+        }
+        let ctx = ArgCtx { block_len: block_len(&b), ..Default::default() };
+        let out = if let (2, Some(tr)) = (state, &earlier) {
+            let mut args = ReplayArgs::new(tr);
+            catch(|| call(&mut b, &mut args))
+        } else {
+            let mut args = RandArgs::new(rng, &mut marker, &ctx, sem.name);
+            catch(|| call(&mut b, &mut args))
+        };
+        let out = match out {
+            Ok(o) => o,
+            Err(p) => {
+                r.violation(format!("C16:builder-panic:{}", sem.name), format!("Builder::{} panicked in state '{}': {}", sem.name, what, p.msg), rp());
+                return;
+            }
+        };
+        if out.is_err() {
+            r.violation(format!("C16:builder-call-failed:{}", sem.name), format!("Builder::{} failed in state '{}': {:?}", sem.name, what, out.err_name()), rp());
+            return;
+        }
+        let after = b.selected_block();
+        let ok = if want { after.is_none() } else { after == before };
+        if !ok {
+            let base = sem.name.strip_prefix("insert_").unwrap_or(sem.name);
+            r.violation(format!("C16:builder-block-end:{}", base), format!("Builder::{} (Op{}) in state '{}': selected block {:?} -> {:?}; Op{} {} a block-termination instruction", sem.name, opname, what, before, after, opname, if want { "is" } else { "is not" }), rp());
+        }
+        r.nontrivial(format!("builder-state{}:{}", state, sem.name));
+        r.seen("builder_states", format!("{} {}", state, what));
+    });
+}
+
+const N_STATES: u64 = 8;
+
+/// A Builder with a selected block, in state number `state`.
+fn prepare(rng: &mut Rng, state: u64) -> (Builder, &'static str) {
+    let mut b = Builder::new();
+    let void = b.type_void();
+    let fty = b.type_function(void, vec![]);
+    let filler = |b: &mut Builder, rng: &mut Rng| {
+        for _ in 0..rng.range(1, 4) {
+            let _ = b.undef(void, None);
+        }
+    };
+    b.begin_function(void, None, FunctionControl::NONE, fty).expect("begin_function");
+    match state {
+        0 | 1 | 2 | 3 => {
+            b.begin_block(None).expect("begin_block");
+            if state != 0 || rng.chance(1, 2) {
+                filler(&mut b, rng);
+            }
+            (b, ["open block", "non-empty open block", "the same call made before with identical arguments", "the same method called before"][state as usize])
+        }
+        4 => {
+            // block 0 finished, block 1 left open, block 2 finished; block 0 selected again
+            b.begin_block(None).unwrap();
+            filler(&mut b, rng);
+            b.ret().unwrap();
+            b.begin_block(None).unwrap();
+            filler(&mut b, rng);
+            b.select_block(None).unwrap();
+            b.begin_block(None).unwrap();
+            b.ret().unwrap();
+            b.select_block(Some(0)).unwrap();
+            if rng.chance(1, 2) {
+                let _ = b.pop_instruction();
+            }
+            (b, "finished block re-selected while a later block is still open")
+        }
+        5 => {
+            for _ in 0..3 {
+                b.begin_block(None).unwrap();
+                filler(&mut b, rng);
+                b.ret().unwrap();
+            }
+            b.select_block(Some(rng.below(3))).unwrap();
+            (b, "finished block re-selected (all blocks finished)")
+        }
+        6 => {
+            b.begin_block(None).unwrap();
+            b.ret().unwrap();
+            b.end_function().unwrap();
+            b.begin_function(void, None, FunctionControl::NONE, fty).unwrap();
+            b.begin_block(None).unwrap();
+            filler(&mut b, rng);
+            if rng.chance(1, 2) {
+                b.select_function(Some(0)).unwrap();
+                b.select_block(Some(0)).unwrap();
+                (b, "block of an earlier, finished function re-selected")
+            } else {
+                (b, "open block in a second function")
+            }
+        }
+        _ => {
+            b.begin_block(None).unwrap();
+            filler(&mut b, rng);
+            match rng.below(3) {
+                0 => b.kill().unwrap(),
+                1 => b.unreachable().unwrap(),
+                _ => b.ret().unwrap(),
+            }
+            b.select_block(Some(0)).unwrap();
+            (b, "block ending in a terminator re-selected")
+        }
+    }
 }
